@@ -30,8 +30,25 @@ def svc_driver(scenarios, tag):
     return vf.run_driver(PID, SVC_PKG, SVC_TEST, scenarios, "svc-" + tag, env={"VERIF_WATCHDOG_MS": wd}, timeout=900)
 
 
+WIRED_TEST = "TestVerifC10Wired"
+WIRED_TRACE = ("Trace_ExecConfigSvc", "Trace_ExecConfigSvc_callers.cfg")
+
+
+def wired_driver(scenarios, tag):
+    # family "callers": every entry point that resolves settings, on ONE wired instance per history (real block relay
+    # service, real wallet account manager + validators manager, real signer, real preparer; recorders one layer out)
+    wd = 5000
+    if tag.startswith("confirm"):
+        wd = 15000
+    return vf.run_driver(PID, SVC_PKG, WIRED_TEST, scenarios, "wired-" + tag, env={"VERIF_WATCHDOG_MS": wd}, timeout=900)
+
+
 def is_svc(s):
     return s.get("family", "").startswith("service")
+
+
+def is_wired(s):
+    return s.get("family", "") == "service-callers"
 
 
 def _cfg(s):
@@ -42,6 +59,12 @@ def _cfg(s):
 def sig_of(s):
     """Describes the failing input: enumerated lattice point (shape of the document) or random index; for the
     service-level histories the family, the documents served and the validator that was held."""
+    if is_wired(s):
+        st = s["steps"]
+        refr = [x.get("known", []) for x in st if x["ev"] == "Refresh"]
+        return {"origin": s["family"], "init": st[0].get("init", 0), "store": st[0].get("known", []),
+                "source": [[x.get("out"), x.get("doc", 0)] for x in st if x["ev"] == "Fetch"],
+                "left_after_refresh": refr[0] if refr else []}
     if is_svc(s):
         st = s["steps"]
         return {"origin": s["family"], "init": st[0].get("init", 0),
@@ -83,6 +106,18 @@ def svc_nontrivial(s, rows):
         src = next((i for i, r in enumerate(rows) if r.get("ev") == "Source"), None)
         return after and ret1 is not None and src is not None and src < ret1
     return after
+
+
+BY_OTHERS = ("auction", "bid", "check", "reg", "prep")
+
+
+def wired_nontrivial(s, rows):
+    # the antecedent across the entry points: the account manager did not answer some entry point with the account
+    # of one of Vouch's validators, and entry points other than ProposerConfig itself used settings in that history
+    kind = {r["i"]: r.get("kind") for r in rows if r.get("ev") == "CallStart"}
+    missed = any(r.get("ev") == "CallLookup" and r.get("out") != "found" and kind.get(r.get("i")) != "bid" for r in rows)
+    used = any(r.get("ev") == "CallReturn" and r.get("ok") and kind.get(r.get("i")) in BY_OTHERS for r in rows)
+    return missed and used
 
 
 def nontrivial(s, rows):
@@ -158,13 +193,43 @@ def svc_scenarios(tier, first_id):
     return out
 
 
-SVC_CONTROL = [("_memo", "invariant", "UsesInForce"), ("_memo_seq", None, None), ("_memochecked", None, None)]
+def wired_scenarios(tier, first_id):
+    """Family "callers" (224 histories): quick takes a seeded sample in which the histories that lose V1's account
+    while a document with an account entry for V1 (2, 3, 4) is in force are over-represented."""
+    hs = vf.tlc_scenarios(PID, "Scen_ExecConfigSvc", "Scen_ExecConfigSvc_callers.cfg", exhaustive=True,
+                          name="scen-svc-callers", timeout=900)
+    if tier == "quick":
+        rnd = random.Random(vf.seed() * 31 + 7)
+
+        def key(h):
+            f = [x for x in h if x["ev"] == "Fetch"][0]
+            left = [x for x in h if x["ev"] == "Refresh"][0]["known"]
+            return "V1" not in left and (h[0]["init"] in (2, 3, 4) or (f["out"] == "good" and f["doc"] in (2, 3, 4)))
+        must = [h for h in hs if key(h)]
+        rest = [h for h in hs if not key(h)]
+        rnd.shuffle(must)
+        rnd.shuffle(rest)
+        hs = must[:20] + rest[:10]
+    return [{"sc": first_id + i, "family": "service-callers", "steps": h} for i, h in enumerate(hs)]
+
+
+SVC_CONTROL = [("_memo", "invariant", "UsesInForce"), ("_memo_seq", None, None), ("_memochecked", None, None),
+               # fifth round: the callers.  An auction / config check that carries on without the account when the
+               # account manager does not answer with it is rejected as soon as the manager can lose an account
+               # (refresh) or fail (error), and passes while it always answers (the old alphabet); an immediate bid
+               # that never asks for the account is rejected for one of Vouch's own validators
+               ("_auctionnil", "invariant", "CallersAgree"), ("_auctionnil_err", "invariant", "CallersAgree"),
+               ("_auctionnil_old", None, None), ("_bidnever", "invariant", "CallersAgree")]
 
 
 def svc_design_checks(v, tier):
-    mc_pool = ThreadPoolExecutor(max_workers=1)
+    mc_pool = ThreadPoolExecutor(max_workers=2)
     mc_fut = mc_pool.submit(vf.tlc_exhaustive, PID, "ExecConfigSvc", "MC_ExecConfigSvc_big.cfg" if tier == "thorough"
-                            else "MC_ExecConfigSvc.cfg", workers=6, timeout=1500)
+                            else "MC_ExecConfigSvc.cfg", workers=4, timeout=1500)
+    # the entry points with the account manager as a component of its own (known, AcctRefresh, CallLookup)
+    mc_callers = mc_pool.submit(vf.tlc_exhaustive, PID, "ExecConfigSvc", "MC_ExecConfigSvc_callers_big.cfg"
+                                if tier == "thorough" else "MC_ExecConfigSvc_callers.cfg", workers=6, timeout=1500,
+                                name="mc-svc-callers")
     # control model: settings remembered per validator, memo emptied by every fetch - right in every history without
     # overlap (must pass), wrong when a call overlaps a fetch (must violate UsesInForce); remembering only while
     # the document read is still in force is fine (must pass)
@@ -179,9 +244,12 @@ def svc_design_checks(v, tier):
         elif not (r["kind"] == kind and r["violated"] == inv):
             raise vf.Broken("the memoising control model no longer violates %s (%s %s)" % (inv, r["kind"], r["violated"]))
     v.add_mc(mc_fut.result())
+    v.add_mc(mc_callers.result())
     mc_pool.shutdown()
     vf.log("model self-check: a per-validator memo emptied by every fetch violates UsesInForce under overlap and passes "
-           "sequentially; the checked memo passes (as they must)")
+           "sequentially; the checked memo passes; an auction that carries on without the account after a failed lookup and "
+           "an immediate bid that never asks for it violate CallersAgree, the former passes while the account manager "
+           "always answers (as they must)")
 
 
 def run(tier):
@@ -196,9 +264,10 @@ def run(tier):
     ]
     # thorough: the small lattice is also run with -coverage 1 (vacuity control); the big one without (time)
     # (the service-level model checking and scenario generation run beside the document-level part)
-    side = ThreadPoolExecutor(max_workers=2)
+    side = ThreadPoolExecutor(max_workers=3)
     f_svc_design = side.submit(svc_design_checks, v, tier)
     f_svc_gen = side.submit(svc_scenarios, tier, 1000001)
+    f_wired_gen = side.submit(wired_scenarios, tier, 2000001)
     v.add_mc(vf.tlc_exhaustive(PID, "ExecConfig", "MC_ExecConfig.cfg", coverage=(tier == "thorough")))
     if tier == "thorough":
         v.add_mc(vf.tlc_exhaustive(PID, "ExecConfig", "MC_ExecConfig_big.cfg", timeout=1500))
@@ -209,6 +278,7 @@ def run(tier):
     # configuration changes, with calls held mid-resolution across a fetch
     f_svc_design.result()
     svc = f_svc_gen.result()
+    wired = f_wired_gen.result()
     side.shutdown()
     # replay directories of this block are numbered from 101 (vf.conformance numbers from 1 per call)
     orig = vf.save_replay
@@ -216,6 +286,10 @@ def run(tier):
     try:
         vf.conformance(v, svc, svc_driver, SVC_TRACE[0], SVC_TRACE[1], sig_of, svc_nontrivial, tlc_timeout=900,
                        max_failures=3)
+        # the entry points on the wired instance (replay directories from 201)
+        vf.save_replay = lambda pid, n, *a: orig(pid, n + 200, *a)
+        vf.conformance(v, wired, wired_driver, WIRED_TRACE[0], WIRED_TRACE[1], sig_of, wired_nontrivial,
+                       tlc_timeout=900, max_failures=3, chunk=60)
     finally:
         vf.save_replay = orig
     v.coverage["rule"] = ("configuration documents of the ExecConfig.tla lattice enumerated by TLC (presence of the varied "
@@ -228,7 +302,13 @@ def run(tier):
                           "Scen_ExecConfigSvc (three documents / failures in a row with lookups of both validators after each; "
                           "a lookup held inside the configuration's resolution across a complete fetch, then further "
                           "lookups), every answer judged against ResolveSet of a document in force during the call; "
-                          "non-trivial = the document in force changed and a validator was looked up afterwards")
+                          "non-trivial = the document in force changed and a validator was looked up afterwards. "
+                          "Entry points (family callers, wired instance: real block relay service, wallet account manager, "
+                          "validators manager, signer, preparer): registration round, preparer run, AuctionBlock, BuilderBid "
+                          "without cached bid, config check and ProposerConfig for both validators in four phases (all accounts "
+                          "held / accounts lost by a refresh / after a fetch / accounts back), six documents incl. a legacy one; "
+                          "every use of settings judged by CallersAgree; non-trivial = the account manager did not answer "
+                          "some entry point with the account and other entry points used settings")
     return v.finish()
 
 
@@ -236,6 +316,9 @@ def replay(path):
     v = vf.Verdict(PID, "quick")
     with open(os.path.join(path, "scenario.json")) as fh:
         s = json.load(fh)
+    if is_wired(s):
+        vf.conformance(v, [s], wired_driver, WIRED_TRACE[0], WIRED_TRACE[1], sig_of, wired_nontrivial)
+        return 1 if v.violations else 0
     if is_svc(s):
         vf.conformance(v, [s], svc_driver, SVC_TRACE[0], SVC_TRACE[1], sig_of, svc_nontrivial)
         return 1 if v.violations else 0
